@@ -1,4 +1,5 @@
 import Rangers.Proofs.GroupChainCrash
+import Rangers.Proofs.GroupChainMirror
 /-!
 Property C19 — the group chain is a gap-free linked list whose height index matches it.
 
@@ -374,5 +375,28 @@ theorem height_zero_is_genesis {l : List Group} {c : Chain} (r : Rep l c) :
   | cons a t => simpa using r.byHeight_lt (i := 0) (g := a) (by simp)
 
 example : firstBelow c2 0 = some g0 := by decide
+
+/-! ## G. The sqlite mirror (`groupIndex`) -/
+
+/-- One step keeps both the chain representation and "mirror = the listed ids". -/
+theorem mirror_step {l : List Group} {c : Chain} (r : Rep l c) (hm : c.mirror.Perm (l.map (·.id)))
+    (gen : List Group) (op : Op) (hok : OpOK op) (hb : l.length + 1 < lenBound) :
+    ∃ c', stepOp gen c op = some c' ∧ Rep (specStep l c op) c' ∧
+      c'.mirror.Perm ((specStep l c op).map (·.id)) := by
+  obtain ⟨c', h1, h2, h3⟩ := rep2_step ⟨r, hm⟩ gen op hok hb
+  exact ⟨c', h1, h2, h3⟩
+
+/-- From first start-up (empty sqlite table), after any sequence of completed operations the
+    mirror table holds exactly the ids of the listed groups; in particular `CountGroups()` equals
+    `Count()`, so `refreshCache` is a no-op at every restart. -/
+theorem mirror_agrees_reachable {gs : List Group} (ok : GenesisOK gs) (ops : List Op)
+    (hops : ∀ op ∈ ops, OpOK op) (hb : gs.length + ops.length < lenBound) :
+    ∃ c0 c l, restart [] [] gs = some (.alive c0) ∧ runOps gs c0 ops = some c ∧ Rep l c ∧
+      c.mirror.Perm (l.map (·.id)) ∧ c.mirror.length = c.count := by
+  obtain ⟨c0, h0, r0⟩ := rep2_init ok
+  obtain ⟨c, l, h1, r1⟩ := rep2_run gs ops (stampFrom 0 gs) c0 r0 hops (by rw [stampFrom_length]; exact hb)
+  exact ⟨c0, c, l, h0, h1, r1.1, r1.2, by rw [r1.2.length, r1.1.count]⟩
+
+example : c2.mirror.Perm ([g0, stamped 1 gA].map (·.id)) := by decide
 
 end Rangers.Props.C19
